@@ -518,7 +518,7 @@ theorem variants_mono_step {s : Src} {n : Nat} (IH : MSpecs s n) (hd : Bool) (ac
       · mono_close
       · mono_close
     · simp only [Bool.not_false, if_true]
-      split <;> mono_close
+      (repeat' split) <;> mono_close
 
 theorem callArgsLoop_mono_step {s : Src} {n : Nat} (IH : MSpecs s n)
     (pos : List (Inline Span)) (named : List (Span × Inline Span)) (p : Nat) :
@@ -1149,5 +1149,399 @@ theorem getCommentGo_post (s : Src) (n level : Nat) (content : List Span) (pc p0
 
 theorem getComment_post {s : Src} {p : Nat} (h : s[p]? = some 35) : CPost s p [] (getComment s p) :=
   getCommentGo_post s _ 0 [] p p (Or.inl ⟨rfl, rfl, rfl, h⟩)
+
+/-- `skip_comment` (runtime parser) -/
+theorem skipCommentGo_post (s : Src) (n p : Nat) (hp : ¬ RealStart s p) (hn : s.size - p + 1 ≤ n) :
+    p < skipCommentGo s n p ∧ NextOk s (skipCommentGo s n p) ∧ NoRS s p (skipCommentGo s n p) := by
+  induction n generalizing p with
+  | zero => omega
+  | succ n ih =>
+    simp only [skipCommentGo]
+    have he := commentLineEnd_eol s p
+    generalize commentLineEndGo s (s.size - p) p = e at he
+    have hz : NoRS s p (e + 1) := (noRS_single hp).trans (noRS_of_noNl he.2.2)
+    split
+    · rename_i hc
+      have h35 := (isCurrentByte_iff _ _ _).mp hc
+      have hlt := get_lt h35
+      have hnr : ¬ RealStart s (e + 1 + 1) := by
+        intro ⟨hls, _⟩
+        rcases hls with h | h
+        · omega
+        · simp only [Nat.add_sub_cancel] at h
+          rw [h35] at h; cases h
+      have := ih (e + 1 + 1) hnr (by omega)
+      exact ⟨by omega, this.2.1, (hz.trans (noRS_single (not_realStart_hash h35))).trans this.2.2⟩
+    · refine ⟨by omega, ?_, hz⟩
+      rcases isEol_cases he.2.1 with h | h | ⟨h, h'⟩
+      · have : s.size ≤ e := by simpa using h
+        exact Or.inr (Or.inl (by omega))
+      · exact Or.inl (LS_succ h)
+      · exact Or.inr (Or.inr h')
+
+theorem skipComment_post {s : Src} {p : Nat} (h : s[p]? = some 35) :
+    p < skipComment s p ∧ NextOk s (skipComment s p) ∧ NoRS s p (skipComment s p) :=
+  skipCommentGo_post s _ p (not_realStart_hash h) (Nat.le_refl _)
+
+/-! ### junk recovery after an error on a line that cannot start a message or term -/
+
+theorem skipToNextEntryStart_noRS {s : Src} {p q q1 : Nat} (hp : ¬ RealStart s p) (_hle : p ≤ q)
+    (hnl : ∀ j, p ≤ j → j < q → s[j]? ≠ some 10) (h : skipToNextEntryStart s p q = some q1) : NoRS s p q1 := by
+  unfold skipToNextEntryStart at h
+  simp only at h
+  split at h
+  · simp only [Option.some.injEq] at h
+    subst h
+    split
+    · rename_i nl hnl'
+      have := rposNewlineGo_some' hnl'
+      have hm : min q s.size ≤ q := Nat.min_le_left _ _
+      exact absurd this.2.2 (hnl nl this.1 (by omega))
+    · have h1 : NoRS s p (q + 1) := (noRS_single hp).trans (noRS_of_noNl hnl)
+      exact (h1.mono (Nat.le_refl _) (by omega)).trans (skipToNextEntryStartGo_noRS s _ q)
+  · cases h
+
+/-! ### the two entry dispatchers -/
+
+theorem msgsTerms_append (a b : List (Entry Span)) : msgsTerms (a ++ b) = msgsTerms a ++ msgsTerms b := by
+  induction a with
+  | nil => rfl
+  | cons e rest ih => cases e <;> simp [msgsTerms, ih]
+
+theorem not_real_of_not_realStart {s : Src} {p : Nat} (hls : LS s p) (h : ¬ RealStart s p) :
+    ∀ b, s[p]? = some b → isReal b = false := by
+  intro b hb
+  cases hr : isReal b with
+  | false => rfl
+  | true => exact absurd ⟨hls, b, hb, hr⟩ h
+
+/-- on a byte that is not `[a-zA-Z]`, `get_message` fails right there -/
+theorem getMessage_err_of_not_alpha {s : Src} {fuel es p : Nat} (h : isIdentifierStart s p = false) :
+    ∃ e, getMessage s fuel es p = .err e p ∧ e.posStart = p := by
+  unfold getMessage getIdentifier
+  simp [h, mkErr]
+
+theorem isIdentifierStart_false_of_not_real {s : Src} {p : Nat} (h : ∀ b, s[p]? = some b → isReal b = false) :
+    isIdentifierStart s p = false := by
+  unfold isIdentifierStart
+  split
+  · rename_i b hb
+    have := h b hb
+    unfold isReal at this
+    simp only [Bool.or_eq_false_iff] at this
+    exact this.1
+  · rfl
+
+theorem not_45_of_not_real {s : Src} {p : Nat} (h : ∀ b, s[p]? = some b → isReal b = false) : s[p]? ≠ some 45 := by
+  intro h45
+  have := h 45 h45
+  revert this; decide
+
+/-- outcome of an entry dispatcher started at `p`:
+* on success the cursor is at or after `p` and is a line start, EOF, or at a `\n`;
+* the error position is at or after `p`;
+* if `p` is a line start that cannot start a message or term, then no message/term is produced (`noMT`) and
+  neither the parsed entry nor the junk recovery passes a position where a message or term could start. -/
+def ELines {α : Type} (s : Src) (p : Nat) (noMT : α → Prop) (r : R α) : Prop :=
+  match r with
+  | .ok e q => p ≤ q ∧ NextOk s q ∧ (LS s p → ¬ RealStart s p → noMT e ∧ NoRS s p q)
+  | .err e q => p ≤ e.posStart ∧
+      (LS s p → ¬ RealStart s p → ∀ q1, skipToNextEntryStart s p q = some q1 → NoRS s p q1)
+  | .panic _ => True
+  | .fuel => True
+
+theorem noreal_facts {s : Src} {fuel p : Nat} (hls : LS s p) (hnr : ¬ RealStart s p) :
+    (∃ e, getMessage s fuel p p = .err e p ∧ e.posStart = p) ∧ s[p]? ≠ some 45 := by
+  have := not_real_of_not_realStart hls hnr
+  exact ⟨getMessage_err_of_not_alpha (isIdentifierStart_false_of_not_real this), not_45_of_not_real this⟩
+
+/-- the part of both dispatchers that is shared: a term or a message -/
+theorem termOrMessage_lines {α : Type} (s : Src) (fuel p : Nat) (noMT : α → Prop) (ft : Term Span → α)
+    (fm : Message Span → α) :
+    ELines s p noMT
+      (if s[p]? = some 45 then
+        (match getTerm s fuel p p with
+         | .ok t q => .ok (ft t) q | .err e q => .err e q | .panic m => .panic m | .fuel => .fuel)
+      else
+        (match getMessage s fuel p p with
+         | .ok m q => .ok (fm m) q | .err e q => .err e q | .panic m => .panic m | .fuel => .fuel)) := by
+  split
+  · rename_i h45
+    have hp := getTerm_post s fuel p p (Nat.le_refl _)
+    cases hr : getTerm s fuel p p with
+    | ok t q =>
+      rw [hr] at hp
+      exact ⟨by have := hp.1; omega, hp.2.next, fun hls hnr => absurd h45 (noreal_facts (fuel := fuel) hls hnr).2⟩
+    | err e q =>
+      rw [hr] at hp
+      exact ⟨hp, fun hls hnr => absurd h45 (noreal_facts (fuel := fuel) hls hnr).2⟩
+    | panic m => trivial
+    | fuel => trivial
+  · have hp := getMessage_post s fuel p p (Nat.le_refl _)
+    cases hr : getMessage s fuel p p with
+    | ok t q =>
+      rw [hr] at hp
+      refine ⟨by have := hp.1; omega, hp.2.next, fun hls hnr => ?_⟩
+      obtain ⟨⟨e, he, _⟩, _⟩ := noreal_facts (fuel := fuel) hls hnr
+      rw [he] at hr; cases hr
+    | err e q =>
+      rw [hr] at hp
+      refine ⟨hp, fun hls hnr q1 hq1 => ?_⟩
+      obtain ⟨⟨e', he, _⟩, _⟩ := noreal_facts (fuel := fuel) hls hnr
+      rw [he] at hr; cases hr
+      exact skipToNextEntryStart_noRS hnr (Nat.le_refl _) (fun j h1 h2 => by omega) hq1
+    | panic m => trivial
+    | fuel => trivial
+
+/-- `get_entry` -/
+theorem getEntry_lines (s : Src) (fuel p : Nat) :
+    ELines s p (fun e => msgsTerms [e] = []) (getEntry s fuel p) := by
+  by_cases h35 : s[p]? = some 35
+  · have hc := getComment_post h35
+    unfold getEntry
+    simp only [h35]
+    cases hr : getComment s p with
+    | ok r q =>
+      rw [hr] at hc
+      obtain ⟨content, level⟩ := r
+      simp only []
+      split
+      · exact ⟨hc.1, hc.2.1, fun _ _ => ⟨rfl, hc.2.2⟩⟩
+      · split
+        · exact ⟨hc.1, hc.2.1, fun _ _ => ⟨rfl, hc.2.2⟩⟩
+        · split
+          · exact ⟨hc.1, hc.2.1, fun _ _ => ⟨rfl, hc.2.2⟩⟩
+          · trivial
+    | err e q =>
+      rw [hr] at hc
+      obtain ⟨_, hpos, l, hl1, hl3, rfl, hbytes⟩ := hc
+      refine ⟨hpos, fun _ hnr q1 hq1 => ?_⟩
+      refine skipToNextEntryStart_noRS hnr (by omega) ?_ hq1
+      intro j h1 h2
+      have := hbytes (j - p) (by omega)
+      rw [show p + (j - p) = j by omega] at this
+      rw [this]; decide
+    | panic m => trivial
+    | fuel => trivial
+  · rw [getEntry_of_not_hash s fuel p h35]
+    exact termOrMessage_lines s fuel p _ _ _
+
+/-- `get_entry_runtime` -/
+theorem getEntryRuntime_lines (s : Src) (fuel p : Nat) :
+    ELines s p (fun o => o = none) (getEntryRuntime s fuel p) := by
+  by_cases h35 : s[p]? = some 35
+  · have hc := skipComment_post h35
+    unfold getEntryRuntime
+    simp only [h35]
+    exact ⟨by omega, hc.2.1, fun _ _ => ⟨rfl, hc.2.2⟩⟩
+  · rw [getEntryRuntime_of_not_hash s fuel p h35]
+    exact termOrMessage_lines s fuel p _ _ _
+
+/-! ### one iteration of each entry loop -/
+
+/-- one iteration of the full parser's loop: either an entry was parsed (the body grows by at most a flushed
+comment and the entry; `errors` is unchanged) or a Junk was recorded. -/
+theorem parseLoop_step {s : Src} {fuel n : Nat} {body : List (Entry Span)} {errors : List PErr}
+    {lc : Option (List Span)} {lbc p : Nat} {r : List (Entry Span) × List PErr} (hp : p < s.size)
+    (h : parseLoop s fuel (n + 1) body errors lc lbc p = .done r) :
+    (∃ e q body' lc', getEntry s fuel p = .ok e q ∧
+        parseLoop s fuel n body' errors lc' (skipBlankBlock s q).2 (skipBlankBlock s q).1 = .done r ∧
+        msgsTerms body' = msgsTerms body ++ msgsTerms [e] ∧ junkSpans body' = junkSpans body) ∨
+    (∃ e q q1 content body', getEntry s fuel p = .err e q ∧ skipToNextEntryStart s p q = some q1 ∧
+        slice s p q1 = some content ∧
+        parseLoop s fuel n (body' ++ [.junk content]) (errors ++ [{ clampErr e q1 with slice := some (p, q1) }]) none
+          (skipBlankBlock s q1).2 (skipBlankBlock s q1).1 = .done r ∧
+        msgsTerms body' = msgsTerms body ∧ junkSpans body' = junkSpans body) := by
+  unfold parseLoop at h
+  simp only [hp, if_true] at h
+  cases hr : getEntry s fuel p with
+  | ok ent q =>
+    left
+    have hnj := getEntry_not_junk s fuel p ent q hr
+    cases lc with
+    | none =>
+      simp only [hr] at h
+      cases ent with
+      | comment c => exact ⟨_, _, _, _, rfl, h, by simp [msgsTerms], rfl⟩
+      | junk c => simp [Entry.isJunk] at hnj
+      | message m => exact ⟨_, _, _, _, rfl, h, by simp [msgsTerms_append], by simp [junkSpans_append, junkSpans]⟩
+      | term t => exact ⟨_, _, _, _, rfl, h, by simp [msgsTerms_append], by simp [junkSpans_append, junkSpans]⟩
+      | groupComment c => exact ⟨_, _, _, _, rfl, h, by simp [msgsTerms_append], by simp [junkSpans_append, junkSpans]⟩
+      | resourceComment c =>
+        exact ⟨_, _, _, _, rfl, h, by simp [msgsTerms_append], by simp [junkSpans_append, junkSpans]⟩
+    | some c0 =>
+      simp only [hr] at h
+      cases ent with
+      | comment c =>
+        exact ⟨_, _, _, _, rfl, h, by simp [msgsTerms_append, msgsTerms], by simp [junkSpans_append, junkSpans]⟩
+      | junk c => simp [Entry.isJunk] at hnj
+      | message m =>
+        by_cases hl : lbc < 2
+        · simp only [hl, if_true] at h
+          exact ⟨_, _, _, _, rfl, h, by simp [msgsTerms_append, msgsTerms], by simp [junkSpans_append, junkSpans]⟩
+        · simp only [hl, if_false] at h
+          exact ⟨_, _, _, _, rfl, h, by simp [msgsTerms_append, msgsTerms], by simp [junkSpans_append, junkSpans]⟩
+      | term t =>
+        by_cases hl : lbc < 2
+        · simp only [hl, if_true] at h
+          exact ⟨_, _, _, _, rfl, h, by simp [msgsTerms_append, msgsTerms], by simp [junkSpans_append, junkSpans]⟩
+        · simp only [hl, if_false] at h
+          exact ⟨_, _, _, _, rfl, h, by simp [msgsTerms_append, msgsTerms], by simp [junkSpans_append, junkSpans]⟩
+      | groupComment c =>
+        exact ⟨_, _, _, _, rfl, h, by simp [msgsTerms_append, msgsTerms], by simp [junkSpans_append, junkSpans]⟩
+      | resourceComment c =>
+        exact ⟨_, _, _, _, rfl, h, by simp [msgsTerms_append, msgsTerms], by simp [junkSpans_append, junkSpans]⟩
+  | err er q =>
+    right
+    cases lc with
+    | none =>
+      simp only [hr] at h
+      split at h
+      · cases h
+      · rename_i q1 hq1
+        split at h
+        · rename_i content hcontent
+          exact ⟨_, _, _, _, _, rfl, hq1, hcontent, h, rfl, rfl⟩
+        · cases h
+    | some c0 =>
+      simp only [hr] at h
+      split at h
+      · cases h
+      · rename_i q1 hq1
+        split at h
+        · rename_i content hcontent
+          exact ⟨_, _, _, _, _, rfl, hq1, hcontent, h, by simp [msgsTerms_append, msgsTerms],
+            by simp [junkSpans_append, junkSpans]⟩
+        · cases h
+  | panic m => cases lc <;> simp [hr] at h
+  | fuel => cases lc <;> simp [hr] at h
+
+/-- the end of the full parser's loop -/
+theorem parseLoop_end {s : Src} {fuel n : Nat} {body : List (Entry Span)} {errors : List PErr}
+    {lc : Option (List Span)} {lbc p : Nat} {r : List (Entry Span) × List PErr} (hp : ¬ p < s.size)
+    (h : parseLoop s fuel (n + 1) body errors lc lbc p = .done r) :
+    r.2 = errors ∧ msgsTerms r.1 = msgsTerms body ∧ junkSpans r.1 = junkSpans body := by
+  unfold parseLoop at h
+  simp only [hp, if_false] at h
+  split at h
+  · cases h; exact ⟨rfl, by simp [msgsTerms_append, msgsTerms], by simp [junkSpans_append, junkSpans]⟩
+  · cases h; exact ⟨rfl, rfl, rfl⟩
+
+/-- one iteration of the runtime parser's loop -/
+theorem parseRuntimeLoop_step {s : Src} {fuel n : Nat} {body : List (Entry Span)} {errors : List PErr}
+    {p : Nat} {r : List (Entry Span) × List PErr} (hp : p < s.size)
+    (h : parseRuntimeLoop s fuel (n + 1) body errors p = .done r) :
+    (∃ o q body', getEntryRuntime s fuel p = .ok o q ∧
+        parseRuntimeLoop s fuel n body' errors (skipBlankBlock s q).1 = .done r ∧
+        msgsTerms body' = msgsTerms body ++ msgsTerms o.toList ∧ junkSpans body' = junkSpans body) ∨
+    (∃ e q q1 content, getEntryRuntime s fuel p = .err e q ∧ skipToNextEntryStart s p q = some q1 ∧
+        slice s p q1 = some content ∧
+        parseRuntimeLoop s fuel n (body ++ [.junk content]) (errors ++ [{ clampErr e q1 with slice := some (p, q1) }])
+          (skipBlankBlock s q1).1 = .done r) := by
+  unfold parseRuntimeLoop at h
+  simp only [hp, if_true] at h
+  cases hr : getEntryRuntime s fuel p with
+  | ok o q =>
+    left
+    simp only [hr] at h
+    cases o with
+    | none => exact ⟨_, _, _, rfl, h, by simp [msgsTerms], rfl⟩
+    | some ent =>
+      have hnj := getEntryRuntime_not_junk s fuel p ent q hr
+      refine ⟨_, _, _, rfl, h, by simp [msgsTerms_append], ?_⟩
+      rw [junkSpans_append, junkSpans_single_nonjunk ent hnj, List.append_nil]
+  | err er q =>
+    right
+    simp only [hr] at h
+    split at h
+    · cases h
+    · rename_i q1 hq1
+      split at h
+      · rename_i content hcontent
+        exact ⟨_, _, _, _, rfl, hq1, hcontent, h⟩
+      · cases h
+  | panic m => simp [hr] at h
+  | fuel => simp [hr] at h
+
+theorem parseRuntimeLoop_end {s : Src} {fuel n : Nat} {body : List (Entry Span)} {errors : List PErr}
+    {p : Nat} {r : List (Entry Span) × List PErr} (hp : ¬ p < s.size)
+    (h : parseRuntimeLoop s fuel (n + 1) body errors p = .done r) : r = (body, errors) := by
+  unfold parseRuntimeLoop at h
+  simp only [hp, if_false] at h
+  cases h; rfl
+
+/-! ### C03: every Junk starts at a line start and contains its error's position -/
+
+/-- the error carries a slice that starts at a line start, at or before the reported position -/
+def ErrPos (s : Src) (e : PErr) : Prop :=
+  ∃ a b, e.slice = some (a, b) ∧ a ≤ e.posStart ∧ (a = 0 ∨ s[a - 1]? = some 10)
+
+theorem clampErr_ge {e : PErr} {q p : Nat} (h1 : p ≤ e.posStart) (h2 : p ≤ q) : p ≤ (clampErr e q).posStart := by
+  unfold clampErr; split <;> simp_all
+
+theorem LSE.ls {s : Src} {p : Nat} (h : LSE s p) (hp : p < s.size) : LS s p := by
+  rcases h with h | h
+  · exact h
+  · omega
+
+theorem errPos_junk {s : Src} {e : PErr} {p q q1 : Nat} (hls : LS s p) (hpos : p ≤ e.posStart)
+    (hq1 : skipToNextEntryStart s p q = some q1) :
+    ErrPos s { clampErr e q1 with slice := some (p, q1) } :=
+  ⟨p, q1, rfl, clampErr_ge hpos (skipToNextEntryStart_ge hq1), hls⟩
+
+theorem forall_mem_append_one {α : Type} {P : α → Prop} {l : List α} {a : α} (h : ∀ x ∈ l, P x) (ha : P a) :
+    ∀ x ∈ l ++ [a], P x := by
+  intro x hx
+  simp only [List.mem_append, List.mem_singleton] at hx
+  rcases hx with hx | rfl
+  · exact h x hx
+  · exact ha
+
+theorem parseLoop_errPos (s : Src) (fuel n : Nat) (body : List (Entry Span)) (errors : List PErr)
+    (lc : Option (List Span)) (lbc p : Nat) (hp : LSE s p) (herr : ∀ e ∈ errors, ErrPos s e) :
+    ∀ r, parseLoop s fuel n body errors lc lbc p = .done r → ∀ e ∈ r.2, ErrPos s e := by
+  induction n generalizing body errors lc lbc p with
+  | zero => intro r h; simp [parseLoop] at h
+  | succ n ih =>
+    intro r h
+    by_cases hlt : p < s.size
+    · have hel := getEntry_lines s fuel p
+      rcases parseLoop_step hlt h with ⟨e, q, body', lc', hr, hloop, _, _⟩ | ⟨e, q, q1, content, body', hr, hq1, _, hloop, _, _⟩
+      · rw [hr] at hel
+        exact ih _ _ _ _ _ (skipBlankBlock_LSE hel.2.1) herr r hloop
+      · rw [hr] at hel
+        refine ih _ _ _ _ _ (skipBlankBlock_LSE (skipToNextEntryStart_LSE hq1).next) ?_ r hloop
+        exact forall_mem_append_one herr (errPos_junk (hp.ls hlt) hel.1 hq1)
+    · have := (parseLoop_end hlt h).1
+      rw [this]; exact herr
+
+theorem parseRuntimeLoop_errPos (s : Src) (fuel n : Nat) (body : List (Entry Span)) (errors : List PErr)
+    (p : Nat) (hp : LSE s p) (herr : ∀ e ∈ errors, ErrPos s e) :
+    ∀ r, parseRuntimeLoop s fuel n body errors p = .done r → ∀ e ∈ r.2, ErrPos s e := by
+  induction n generalizing body errors p with
+  | zero => intro r h; simp [parseRuntimeLoop] at h
+  | succ n ih =>
+    intro r h
+    by_cases hlt : p < s.size
+    · have hel := getEntryRuntime_lines s fuel p
+      rcases parseRuntimeLoop_step hlt h with ⟨o, q, body', hr, hloop, _, _⟩ | ⟨e, q, q1, content, hr, hq1, _, hloop⟩
+      · rw [hr] at hel
+        exact ih _ _ _ (skipBlankBlock_LSE hel.2.1) herr r hloop
+      · rw [hr] at hel
+        refine ih _ _ _ (skipBlankBlock_LSE (skipToNextEntryStart_LSE hq1).next) ?_ r hloop
+        exact forall_mem_append_one herr (errPos_junk (hp.ls hlt) hel.1 hq1)
+    · have := parseRuntimeLoop_end hlt h
+      rw [this]; exact herr
+
+theorem start_LSE (s : Src) : LSE s (skipBlankBlock s 0).1 := skipBlankBlock_LSE (Or.inl (LS_zero s))
+
+/-- **C03**: every error of `parse` has a slice starting at a line start, at or before the error position -/
+theorem parse_errPos (s : Src) (body : List (Entry Span)) (errs : List PErr) (h : parse s = .done (body, errs)) :
+    ∀ e ∈ errs, ErrPos s e :=
+  parseLoop_errPos s _ _ [] [] none 0 _ (start_LSE s) (by simp) _ h
+
+theorem parseRuntime_errPos (s : Src) (body : List (Entry Span)) (errs : List PErr)
+    (h : parseRuntime s = .done (body, errs)) : ∀ e ∈ errs, ErrPos s e :=
+  parseRuntimeLoop_errPos s _ _ [] [] _ (start_LSE s) (by simp) _ h
 
 end FluentProofs.Parser
